@@ -84,6 +84,10 @@ class RestCtx(FsmCtx):
             now_due = [i for i, c in enumerate(w.reactor.due()) if c.time <= w.now()]
             if now_due:
                 return ["fire", now_due[0]]
+        if self.cfg.get("two_sessions") and getattr(self, "ts_phase", 0) is not None:
+            op = self.two_session_script(rng)
+            if op is not None:
+                return op
         if self.prefix_left > 0:
             self.prefix_left -= 1
             op = FsmCtx.choose(self, rng)
@@ -94,6 +98,60 @@ class RestCtx(FsmCtx):
             if op is not None and not (op[0] == "rest"):
                 return op
         return self.probe(rng)
+
+    def two_session_script(self, rng):
+        """Scenario: a REST announcement in one session, the session ends, the next session negotiates the
+        other AS-number width, the operator sends the same attribute set again."""
+        w = self.world
+        cfg = self.cfg
+        st = w.state()
+        live = w.live_conns()
+        ph = getattr(self, "ts_phase", 0)
+        url = "/v1/peer/%s/send/update" % PEER
+        if ph == 0:
+            if st != "ESTABLISHED" or cfg["remote_as"] > 65535:
+                return None
+            self.ts_phase = 1
+            self.ts_as4 = bool(getattr(w.factory.fsm.protocol, "fourbytesas", False))
+            self.ts_body = {"attr": {"1": 0, "2": [[2, [rng.pick([100, 64512, 65001]), rng.pick([1, 64999])]]], "3": "10.9.8.7", "5": 100},
+                            "nlri": [rng.pick(base.PREFIX_POOL)]}
+            return ["rest", "POST", url, "ok", self.ts_body]
+        if ph == 1:
+            k = [i for i, c in enumerate(live) if c.readable()]
+            if st != "ESTABLISHED" or not k:
+                self.ts_phase = None
+                return None
+            self.ts_phase = 2
+            return ["pclose", k[-1], True]
+        if ph == 2:
+            for k, c in enumerate(live):
+                if c.closing():
+                    return ["cdone", k]
+            for k, c in enumerate(live):
+                if c.state == "connecting":
+                    return ["conn_ok", k]
+            k = [i for i, c in enumerate(live) if c.readable()]
+            if st == "OPENSENT" and k:
+                caps = [rp.cap_mp(1, 1), rp.cap_rr()] + ([] if self.ts_as4 else [rp.cap_as4(cfg["remote_as"])])
+                self.ts_phase = 3
+                return ["send", k[-1], rp.encode_open(cfg["remote_as"], 90, "2.2.2.2", caps).hex(), []]
+            if w.reactor.due():
+                return ["fire", 0]
+            self.ts_phase = None
+            return None
+        if ph == 3:
+            k = [i for i, c in enumerate(live) if c.readable()]
+            if st == "OPENCONFIRM" and k:
+                return ["send", k[-1], rp.encode_keepalive().hex(), []]
+            self.ts_phase = None
+            if st == "ESTABLISHED":
+                self.stats["gen:same_attributes_in_second_session_with_other_as_width"] += 1
+                b = dict(self.ts_body)
+                if rng.chance(0.5):
+                    b["nlri"] = [rng.pick(base.PREFIX_POOL)]
+                return ["rest", "POST", url, "ok", b]
+            return None
+        return None
 
     def probe(self, rng):
         cfg = self.cfg
@@ -131,7 +189,10 @@ class RestCtx(FsmCtx):
         if rng.chance(0.05):
             return rng.pick([{}, [], {"x": 1}])
         if suffix == "send/route-refresh":
-            b = {"afi": rng.pick([1, 1, 2, 25]), "safi": rng.pick([1, 1, 128, 133])}
+            b = {"afi": rng.pick([1, 1, 2, 2, 25]), "safi": rng.pick([1, 1, 2, 70, 128, 133])}
+            fams = base.remote_families()
+            if fams and rng.chance(0.5):
+                b["afi"], b["safi"] = rng.pick(fams)     # a family the peer did advertise
             if rng.chance(0.3):
                 b["res"] = rng.pick([0, 1, 255])
             return b
@@ -141,6 +202,18 @@ class RestCtx(FsmCtx):
         if suffix in ("adj-rib-in", "adj-rib-out"):
             return {"data": [rng.pick(base.PREFIX_POOL)]}
         # send/update, json_to_bin (and anything else): an UPDATE dictionary
+        prev = getattr(self, "gen_prev_bodies", None)
+        if prev is None:
+            prev = self.gen_prev_bodies = []
+        if suffix == "send/update" and prev and rng.chance(0.3):
+            # the operator announces with the attribute set of an earlier request again (possibly in a later
+            # session with other negotiated capabilities), same or other prefixes
+            import copy
+            b = copy.deepcopy(rng.pick(prev))
+            if rng.chance(0.5) and b.get("nlri"):
+                b["nlri"] = [rng.pick(base.PREFIX_POOL)]
+            self.stats["gen:repeated_attribute_set"] += 1
+            return b
         nlri = sorted(set(rng.pick(base.PREFIX_POOL) for _ in range(rng.randrange(0, 3))))
         withdraw = sorted(set(rng.pick(base.PREFIX_POOL) for _ in range(rng.randrange(0, 3)))) if rng.chance(0.5) else []
         attr = {}
@@ -172,6 +245,8 @@ class RestCtx(FsmCtx):
             b["nlri"] = nlri
         if withdraw or rng.chance(0.3):
             b["withdraw"] = withdraw
+        if suffix == "send/update" and "attr" in b and "14" not in b["attr"] and len(prev) < 6:
+            prev.append(b)
         return b
 
     # ------------------------------------------------------------------ oracle
@@ -446,6 +521,7 @@ class RestProfile(FsmProfile):
         cfg["prefix_len"] = rng.pick([0, 2, 4, 6, 10, 20])
         cfg["max_ops"] = rng.pick([30, 50, 80])
         cfg["rib"] = rng.chance(0.3)
+        cfg["two_sessions"] = rng.chance(0.12)
         if rng.chance(0.3):
             cfg["username"], cfg["password"] = rng.pick([("admin", "s3cret"), ("op", "admin"), ("root", "")])
         # bias towards established sessions: steer
